@@ -358,3 +358,9 @@ def replay(ctx, path):
         return 1
     print(c)
     return 1
+
+
+MANIFEST = dict(
+    technique='Coq proof (fuelled transliteration of is_equivalent/is_conformant/coerced; preorder, equivalence, variance and coercion laws for all types) with model/code correspondence',
+    text="Theorems (coq/Props/C16.v, closed under the global context) hold for every type of any depth and arity whose context keys are unique: equivalence is reflexive/symmetric/transitive and implies mutual conformance, conformance is reflexive/transitive with Any top and Null bottom, list/range/context/function variance, function results, coercion = identity/wrap/unwrap/null, conforms-or-null, idempotent. Tied to feel/src/types.rs by comparing both relations on the exhaustive depth-1 universe and sampled deeper types, and coerced/type_of on generated values; the laws are also evaluated on the implementation's own answers.",
+    note='Trusted: Coq kernel + vm_compute, hand-written model of types.rs / Value::type_of (correspondence-checked, not verified), harness. Atom payloads and names are abstract.')
